@@ -29,8 +29,9 @@ META = {
                   "PartitionInstanceRing and MultiPartitionInstanceRing and compared with TLC's outputs; lookups on seeded random rings of 1..20 "
                   "partitions with generated tokens and every CAS of real lifecyclers + editor running on one in-memory store under the synctest "
                   "clock (systematic short schedules and seeded long ones) are validated by TLC against the specification.",
-    "level_note": "Bounded: exhaustive within the stated universes; recorded schedules are a sample of all schedules (all tails of length 2-3 "
-                  "over a 20-step alphabet after 6 prefixes, plus seeded random schedules of 60 steps). Trusted: TLC, the key-class embedding and "
+    "level_note": "Bounded: exhaustive within the stated universes; recorded schedules are a sample of all schedules (every tail of 2 steps over a "
+                  "13-step (quick) / 20-22-step (thorough) alphabet after each of 7 scenario prefixes, plus seeded random schedules of 60 steps "
+                  "with 1..4 lifecyclers). Trusted: TLC, the key-class embedding and "
                   "rank compression, the projection of PartitionRingDesc to the abstract state, the serialisation of writers by the recording "
                   "kv.Client (CAS conflicts are C07's concern), whole-second event times, the consul in-memory store.",
     "technique": "TLA+ specification model-checked by TLC; TLC-generated cases replayed into the real code; traces and lookups recorded "
@@ -185,7 +186,9 @@ def run(ctx):
         sm_thread.start()
         time.sleep(1.0)
     else:
-        check_sm(["MC_sm_cov", "MC_sm_full2", "MC_sm_three", "MC_sm_multi"])
+        # MC_sm_three (3 partitions x 3 lifecyclers at once, 2.5M states / 42M transitions) is opt-in: VERIF_C15_BIG=1
+        check_sm(["MC_sm_cov", "MC_sm_full2", "MC_sm_3p2l", "MC_sm_2p3l", "MC_sm_multi"] +
+                 (["MC_sm_three"] if os.environ.get("VERIF_C15_BIG") else []))
 
     # 2. pure part, spec -> code: TLC enumerates rings and owner/instance-ring combinations, proves RoutingTotal /
     #    ReplExact / MultiSound on each and emits the expected outputs; the harness replays every case
@@ -206,7 +209,7 @@ def run(ctx):
     # 3. code -> spec: lookups on seeded random rings (PartitionRingCheck.tla) and every CAS of real lifecyclers +
     #    editor on one in-memory store (PartitionRingTrace.tla)
     env = {"VERIF_N": 40 if quick else 200, "VERIF_TAIL": 2, "VERIF_ALPHA": "small" if quick else "full",
-           "VERIF_PROFILES": 1 if quick else 3, "VERIF_RANDOM": 10 if quick else 150, "VERIF_RANDOM_LEN": 60}
+           "VERIF_PROFILES": 1 if quick else 2, "VERIF_RANDOM": 10 if quick else 100, "VERIF_RANDOM_LEN": 60}
     if selftest == "corrupt-ring":
         env["VERIF_CORRUPT_RING"] = 7
     if selftest == "corrupt-trace":
